@@ -269,7 +269,7 @@ func init() {
 // FIRST physical page of the next (physically adjacent, different owners).
 func c11OwnerScenario(r *Run, rng *Rng) {
 	ps := uint64(4096)
-	pagesPerGPU := uint64(rng.Pick(2, 4, 4, 8))
+	pagesPerGPU := uint64(rng.Pick(3, 4, 6, 8))
 	d := driver.MakeBuilder().WithEngine(&fakeEngine{}).WithPageTable(vm.NewPageTable(12)).WithLog2PageSize(12).Build("Driver")
 	gpuPort := d.GetPortByName("GPU")
 	(&fakeConn{name: "c"}).PlugIn(gpuPort)
@@ -286,12 +286,20 @@ func c11OwnerScenario(r *Run, rng *Rng) {
 	desc := fmt.Sprintf("%d GPUs x %d pages; buffer page 0 on the last page of GPU %d, page 1 on the first page of GPU %d", n, pagesPerGPU, k, k+1)
 	fault := catch(func() {
 		d.SelectGPU(ctx, k)
-		if pagesPerGPU > 1 {
-			d.AllocateMemory(ctx, (pagesPerGPU-1)*ps) // GPU k keeps exactly one free page: its last
+		if pagesPerGPU > 3 {
+			d.AllocateMemory(ctx, (pagesPerGPU-3)*ps) // GPU k keeps exactly three free pages
 		}
-		d.SelectGPU(ctx, k+1)
-		buf := d.AllocateMemory(ctx, 2*ps) // both pages on GPU k+1 (its first two pages)
-		d.Remap(ctx, uint64(buf), ps, k)   // page 0 moves to GPU k's last page
+		buf := d.AllocateMemory(ctx, 2*ps) // the next two pages of GPU k; its last page stays free
+		d.Remap(ctx, uint64(buf), ps, k)     // page 0 moves to GPU k's last page
+		d.Remap(ctx, uint64(buf)+ps, ps, k+1) // page 1 moves to GPU k+1's first page
+		pt := d.VerifPageTable()
+		pg0, _ := pt.Find(ctx.VerifPID(), uint64(buf))
+		pg1, _ := pt.Find(ctx.VerifPID(), uint64(buf)+ps)
+		if pg1.PAddr == pg0.PAddr+ps && d.VerifDeviceIDByPAddr(pg0.PAddr) != d.VerifDeviceIDByPAddr(pg1.PAddr) {
+			r.Count("owner.adjacent-pages-on-two-gpus")
+		} else {
+			r.Count("owner.other-layout")
+		}
 		off := uint64(rng.Pick(0, 0, 64, 4000))
 		l := 2*ps - off
 		if rng.Bool() {
